@@ -26,7 +26,7 @@ def compile_case_py(case: Case, sc: Scratch) -> Tuple[str, List[str]]:
     src = sc.path("src_" + case.name)
     gen = sc.path("gen_" + case.name)
     os.makedirs(src, exist_ok=True)
-    files = case.proto.files()
+    files = case.proto.files(getattr(case, "style", None))
     write_files(files, src)
     mods = []
     for fn in files:
@@ -54,13 +54,15 @@ def values_to_assign(lay: Layout, terms: Dict[Any, Any], vals: Dict[Any, int]) -
     return out
 
 
-def extreme_values(lay: Layout, rng: random.Random, n_random: int = 2) -> List[Dict[Any, int]]:
+def extreme_values(lay: Layout, rng: random.Random, n_random: int = 2, free_bits: Optional[int] = None) -> List[Dict[Any, int]]:
     """min / max / -1-or-all-ones / seeded random assignments (enum leaves: members only)"""
     outs: List[Dict[Any, int]] = []
     for mode in ["min", "max", "ones"] + ["rnd"] * n_random:
         d: Dict[Any, int] = {}
         for l in lay.leaves():
             lo, hi = leaf_range(l)
+            if free_bits and l.kind in ("uint", "int"):
+                lo, hi = -(1 << (free_bits - 1)), (1 << (free_bits - 1)) - 1
             if l.kind == "enum":
                 ms = [v for _, v in l.enum.members] if l.enum else []
                 if not ms:
@@ -71,7 +73,7 @@ def extreme_values(lay: Layout, rng: random.Random, n_random: int = 2) -> List[D
             elif mode == "max":
                 d[l.path] = hi
             elif mode == "ones":
-                d[l.path] = -1 if l.signed else hi
+                d[l.path] = -1 if (l.signed or free_bits) and l.kind in ("uint", "int") else hi
             else:
                 d[l.path] = rng.randint(lo, hi)
         outs.append(d)
